@@ -802,4 +802,22 @@ def nodeView {α : Type} : TD α → Option (Shape × List (String × TD α))
   | .leaf _ => none
 
 
+/-! ### well-named trees (hypothesis of the whole-tree `unflatten` theorem) -/
+
+/-- the names of a node fit its batch rank and are pairwise different where given (what the names setter enforces) -/
+def NamesOK (names : Names) (n : Nat) : Prop :=
+  match names with
+  | none => True
+  | some l => l.length = n ∧ (l.filter (· != none)).Nodup
+
+mutual
+/-- every node of the tree has names that fit its own batch rank (what the names setter enforces on every tensordict) -/
+def Named : TD α → Prop
+  | .leaf _ => True
+  | .node bs names es => NamesOK names bs.length ∧ NamedList es
+def NamedList : List (String × TD α) → Prop
+  | [] => True
+  | (_, e) :: rest => Named e ∧ NamedList rest
+end
+
 end TdVerif.C02
